@@ -21,25 +21,44 @@ LEVEL_TEXT = ("Coq theorems over an exact-rational model of the criterion famili
               "division count/(ploidy*k)) and proved equal to the count-based definition for every selection of up to 2^53 chromosome copies "
               "and every target frequency in [0,1] (through Flocq); the former code (rounded reciprocal, tmajor computed with the tminor test) "
               "is refuted on separately named old_ definitions as a regression witness. The model is tied to the code by evaluating it inside "
-              "Coq against latentfn/evalfn/evaluate/nlatent of all 61 evaluable concrete problem classes on generated data")
+              "Coq against latentfn/evalfn/evaluate/nlatent of all 61 evaluable concrete problem classes on generated data. "
+              "Kernel expressions regenerated from the source on every run (Gen/C05_Kernel.v, 173 definitions: guard and normalisation of all 39 "
+              "vector-encoded latent functions, sign / 1/k coefficient of every linear, quadratic, L1 and family body, order of the latent blocks, the "
+              "binary64 frequency quotient with its threshold and flag algebra for PAU/MOGS and what the tfreq setter stores in which flag, OPV / "
+              "genotype-builder coefficients and slice, evalfn, the transformations of trans.py, the usefulness-criterion formula, the accumulate-and-divide "
+              "loop of the EMBV problems and the replicate buffer / loop count / progeny count of the EMBV matrix factory) are proved equal to the model's "
+              "expressions, and the availability, scale-invariance and guard-boundary theorems are restated about the generated definitions, so a changed "
+              "expression breaks Props/C05.vo independently of the sampled cases. Further theorems: a re-used problem object answers each call from the "
+              "data assigned last (any history), the linear criteria are homogeneous of degree one in their table, the expected maximum breeding value "
+              "of a line whose progeny all have breeding value b is b")
 LEVEL_NOTE = ("trusted: Coq kernel + vm_compute, PrimFloat primitives; BLAS/numpy summation order is not modelled (values compared within 2^-30 of "
               "the exact rational, exactly on power-of-two cases); sqrt (norms, usefulness criterion), the normal density (selection intensity), "
               "arcsin/sqrt weights and Cholesky factors are compared through their squares / within tolerance by the predicate only; factory "
               "methods are checked by the independent predicate (definition recomputed from the population, taxon-permutation equivariance) "
               "and, where the definition is rational (gebv, integer-alpha gwgebv, haplotype values, L1 tensor, cross maps, selfed EMBV), by the "
-              "Coq model too; the |sum x| < 1e-10 guard of the real-encoded classes stays a known finding (design decision of the library); "
+              "Coq model too; the expected-maximum-breeding-value factories are compared with the definition (mean over exactly the replicates drawn of "
+              "the maximum over the progeny of the replicate) on the progeny the library itself simulated, which the harness records at the library's call of "
+              "dense_dh / MatingProtocol.mate (that those progeny are Mendelian is only checked allele-wise here; meiosis is C01/C02); the kernel translator "
+              "(harness/translate/c05_kernel.py on top of pyexpr) is trusted and fails closed; the |sum x| < 1e-10 guard of the real-encoded classes stays a known finding (design decision of the library); "
               "the binary64 division theorem rests on Flocq's PrimFloat bridge (classical reals); simulation-based problems (look-ahead) are out of scope")
 TECHNIQUE = "Coq proof over an executable rational/binary64 model; in-Coq vm_compute correspondence with the implementation; exact-rational predicate"
 RULE = ("case = (criterion family, candidate data on a dyadic grid, selected multiset s, listing permutation, positive scale a, free real / "
         "integer vectors, objective/constraint weights and transformation specs) evaluated on all encodings of that family, or "
         "(population, taxon permutation, factory) for the factory clause (the usefulness-criterion constructors from_pgmat_gpmod and from_pgmat_gpmod_xmap "
         "with every variance-matrix factory of pybrops.model.vmat.fcty they accept — two-way, dihybrid, three-way, four-way — on parents with "
-        "distinct breeding values, contributions written down in the harness), or the class / variance-factory enumeration cases; one PRNG; sizes n 1..8 (up to 206 for "
+        "distinct breeding values, contributions written down in the harness; the EMBV matrix factory with nrep / nprogeny as scalars and as per-taxon arrays with "
+        "unequal entries, sorted both ways, int32/int64; the EMBV problem factories with SelfCross, TwoWayCross and TwoWayDHCross on homozygous and segregating parents; "
+        "from_numpy of the weighted classes), or the class / factory-method / variance-factory enumeration cases; every latent case with at most 12 candidates is also a "
+        "session on the same problem objects (inputs left intact; new data through every property setter incl. the flags a setter derives; deep copy equal and "
+        "array-disjoint; in-place update of a data array seen by the next call) and is repeated on data scaled by 2^-40, 2^-20, 2^12 or 2^20 (exact scale law); "
+        "targets 2^-40 and 1-2^-40 next to exact 0 / 1; one PRNG; sizes n 1..8 (up to 206 for "
         "the allele-frequency families so that ploidy*k hits 49, 98, 103, 107 where a rounded reciprocal is inexact), target frequencies incl. "
         "exactly 0 and 1, k 1..6 incl. repeated members, zero vectors, guard-region sums; "
         "non-trivial = at least two distinct members selected out of >= 3 candidates; distinct by SHA-256 of the case")
 TRUSTED = ["numpy/BLAS dot and pairwise summation: compared in tolerance regime T (2^-30) against exact rationals, exactly (E) when k and the sums are powers of two",
            "int8 genotype sums and int->float conversion are exact (modelled by PrimFloat.of_uint63)",
+           "harness/translate/c05_kernel.py (ast -> Gallina for the kernel expressions; fail closed)",
+           "the progeny recorded at dense_dh / MatingProtocol.mate are what the EMBV factories average over (module attribute / subclass spies installed by the harness, no hooks in the library)",
            "haplotype block boundaries (haplobin*, property C18), genetic variance matrices (C12), coancestry matrices (C13) and gebv() are taken from pybrops when the factory clause is checked"]
 ASSUMPTIONS = ["decision vectors: subset = indices into the candidates (repeats allowed only where noted), integer >= 0, binary in {0,1}, real >= 0",
                "kinship factors are upper triangular as the constructors require", "mkrwt >= 0, tfreq in [0,1]"]
@@ -353,6 +372,11 @@ def _lifecycle(case, out, ps, pr, xs, xr):
     out["inplace_set"] = _try(inplace)
     out["inplace_sub"] = _lat(ps, xs)
     if pr is not None: out["inplace_real"] = _lat(pr, xr)
+    # (4b) in-place update of the target array (allele-frequency families)
+    if "tf3" in case:
+        def tf_inplace(): ps.tfreq[...] = numpy.array(case["tf3"], dtype=float)
+        out["tf3_set"] = _try(tf_inplace)
+        out["tf3_sub"] = _lat(ps, xs)
     # (5)
     dsc = scaled_data(fam, d, case["sc"])
     if dsc is not None:
@@ -507,6 +531,8 @@ def gen_latent(rng, fam, mode="rand"):
     if n <= 12:                 # lifecycle / scale dimensions (kept off the 49..107-candidate cases, whose point is the frequency rounding)
         c["data2"] = gen_data2(rng, fam, d)
         c["sc"] = rng.choice([-40, -20, 12, 20])
+        if afam:                # targets written IN PLACE into the array the problem holds, after the setter ran
+            c["tf3"] = [[rng.choice([0.0, 1.0, 0.5, v, v]) for v in r] for r in c["data2"]["tfreq"]]
     return c
 
 def gen_guard(rng, fam, which=None):
@@ -614,6 +640,14 @@ def _evalfn_ok(ev, x, lat, got):
         if gl is None or len(gl) != len(want) or not all(_close(a, b) for a, b in zip(gl, want)): return False
     return True
 
+STALE_TF = "after an in-place update of the target array the latent vector != definition on the current targets (the flags stored by the tfreq setter are stale)"
+
+def _tf_class_changes(fam, tf_set, tf_now):
+    """does some target leave its class (the classes the stored flags encode)?"""
+    if fam == "mogs": cls = lambda v: (v <= 0, v >= 1)
+    else: cls = lambda v: (v == 0, 0 < v < 1, v == 1)
+    return any(cls(a) != cls(b) for ra, rb in zip(tf_set, tf_now) for a, b in zip(ra, rb))
+
 def _pred_lifecycle(case, out, c, sub):
     if "data2" not in case: return []
     bad = []
@@ -638,6 +672,9 @@ def _pred_lifecycle(case, out, c, sub):
     if sub_ok and not _match(_frl(out["inplace_sub"]), defn(fam, d3, c, s)): bad.append("after an in-place update of %s the subset latent vector != definition on the updated data (stale state)" % a)
     if "inplace_real" in out and tot > 0 and not (fam in GUARDED and tot < F(EPS)):
         if not _match(_frl(out["inplace_real"]), defn(fam, d3, cw, mem)): bad.append("after an in-place update of %s the real latent vector != definition on the updated data (stale state)" % a)
+    if "tf3" in case:
+        d4 = dict(d3, tfreq=case["tf3"])
+        if not _match(_frl(out["tf3_sub"]), defn(fam, d4, c, s)): bad.append(STALE_TF)
     if "sc_sub" in out:
         sc = F(2) ** case["sc"]; comps = scaled_components(fam, d)
         for key, base in (("sc_sub", out["sub"]), ("sc_real", out.get("xr"))):
@@ -804,6 +841,14 @@ def emit_latent(case, out):
         dsc = scaled_data(fam, d, case["sc"])
         if dsc is not None:
             parts.append("(let fd := %s in agree %s %s (latent n fd %s))" % (emit_fdata(fam, dsc), ex_sub, _oimpl(out["sc_sub"]), sub))
+        if "tf3" in case and not isinstance(out.get("tf3_set"), dict):
+            # the code as it is: flags of the targets at the setter (data2), distances to the targets written in place afterwards
+            com = "%s %s %s %s %s %d %d %s" % (E.z(d3["ploidy"]), E.lst2(d3["geno"], E.z), _ql2(d3["mkrwt"]), _ql2(d3["tfreq"]), _ql2(case["tf3"]),
+                                               len(d3["mkrwt"]), len(d3["mkrwt"][0]), _natl(s))
+            if fam == "pafd":
+                parts.append("(let fd := %s in agree false %s (latent n fd %s))" % (emit_fdata(fam, dict(d3, tfreq=case["tf3"])), _oimpl(out["tf3_sub"]), sub))
+            else:
+                parts.append("agree false %s (Some (map Ex (%s %s)))" % (_oimpl(out["tf3_sub"]), "pau_stale" if fam == "pau" else "mogs_stale", com))
     if fam not in SUBSET_ONLY:
         a = case["a"]
         vec = lambda x: "(DVec %s)" % _ql(x)
@@ -1479,6 +1524,8 @@ def classify(case, out, clauses):
     Only the 1e-10 guard is still a known finding; everything else that fails is a violation."""
     if not clauses or case["kind"] != "latent": return None
     fam = case["fam"]
+    if fam in ("pau", "mogs") and "tf3" in case and all(c == STALE_TF for c in clauses) and _tf_class_changes(fam, case["data2"]["tfreq"], case["tf3"]):
+        return "C05-tfreq-inplace-stale-flags"
     if fam in GUARDED:
         tot = sum(case["xr"]); a = case["a"]
         ins, ins_a = 0 < tot < EPS, 0 < a * tot < EPS
